@@ -18,6 +18,19 @@ class AnalysisError(Exception):
 
 # --------------------------------------------------------------------------- model
 
+def as_assert(st):
+    """the condition a statement ASSERTS, or None: `assert C` -> C;  `if not C: raise ..` -> C;  `if D: raise ..` -> not D   (an `if` whose body is one raise and that
+    has no else is the spelled-out form of an assertion - asserts are stripped under python -O, so hardening edits replace one by the other)"""
+    if isinstance(st, ast.Assert):
+        return st.test
+    if isinstance(st, ast.If) and not st.orelse and len(st.body) == 1 and isinstance(st.body[0], ast.Raise):
+        t = st.test
+        if isinstance(t, ast.UnaryOp) and isinstance(t.op, ast.Not):
+            return t.operand
+        return ast.copy_location(ast.UnaryOp(ast.Not(), t), t)
+    return None
+
+
 class FuncInfo:
     __slots__ = ('module', 'qual', 'node', 'cls', 'parent', 'nested', 'forced')
 
@@ -84,13 +97,33 @@ class ClassInfo:
         return '<Class %s>' % self.fq
 
 
+class _CanonBranches(ast.NodeTransformer):
+    """`if not C: A else: B` is read as `if C: B else: A`, `X if not C else Y` as `Y if C else X`: which of two alternatives is written first is not a fact about the
+    program.  Only a plain two-way if / else (no elif chain hanging on it) and ternaries are touched; statements keep their own line numbers."""
+    def visit_If(self, n):
+        self.generic_visit(n)
+        if n.orelse and not (len(n.orelse) == 1 and isinstance(n.orelse[0], ast.If)) and isinstance(n.test, ast.UnaryOp) and isinstance(n.test.op, ast.Not):
+            return ast.copy_location(ast.If(n.test.operand, n.orelse, n.body), n)
+        return n
+
+    def visit_IfExp(self, n):
+        self.generic_visit(n)
+        if isinstance(n.test, ast.UnaryOp) and isinstance(n.test.op, ast.Not):
+            return ast.copy_location(ast.IfExp(n.test.operand, n.orelse, n.body), n)
+        return n
+
+
+def _canonical_branches(tree):
+    return ast.fix_missing_locations(_CanonBranches().visit(tree))
+
+
 class ModuleInfo:
     def __init__(self, name, relpath, src, is_pkg):
         self.name, self.relpath, self.src, self.is_pkg = name, relpath, src, is_pkg
         try:
             with warnings.catch_warnings():
                 warnings.simplefilter('ignore')
-                self.tree = ast.parse(src)
+                self.tree = _canonical_branches(ast.parse(src))
         except SyntaxError as e:
             raise AnalysisError('cannot parse %s: %s' % (relpath, e))
         self.functions = {}     # qual -> FuncInfo  (top level, Class.method, and nested a.b)
